@@ -189,6 +189,18 @@ func GenAdmission(prop string, seed uint64, thorough bool) *Scenario {
 		}
 		raw.Raw = append(raw.Raw, op)
 	}
+	if (strings.HasPrefix(o.AllowRequest, "deny:") || o.AllowRequest == "ok") && g.p(0.5) {
+		// the allow-request hook takes its time, and the client gives up on a handshake while the hook is still
+		// deciding: a refusal is reported (one connection_error event) whether or not anybody is left to read the answer
+		sc.Opts.AllowSlowMs = g.pick(20, 60)
+		tr := "polling"
+		if !hasPolling {
+			tr = "websocket"
+		}
+		raw.Raw = append(raw.Raw, RawOp{Op: "http", AtMs: 30, Method: "GET", Path: mount, Query: "EIO=4&transport=" + tr, Async: true, Expect: "abandoned while the hook decides"})
+		raw.Raw = append(raw.Raw, RawOp{Op: "abort", AtMs: sc.Opts.AllowSlowMs / 2})
+		raw.Raw = append(raw.Raw, RawOp{Op: "wait", AtMs: sc.Opts.AllowSlowMs})
+	}
 	sc.Clients = append(sc.Clients, raw)
 	sc.Policy, sc.HotFuncs = genPolicy(g, []string{"baseServer.Verify", "baseServer.Handshake", "server.HandleRequest", "server.HandleUpgrade", "server.onWebSocket"}, 8000)
 	sc.MaxSteps = 80000
@@ -528,6 +540,18 @@ func oracleC05(f *sessionFam, w *World, res *Result) []Violation {
 					nErr++
 				}
 			}
+			abandoned := false
+			if len(e.P) > 3 {
+				id, _ := strconv.Atoi(e.P[3])
+				for _, r := range w.resps {
+					if r.ID == id {
+						abandoned = r.Aborted
+					}
+				}
+			}
+			if exp.admit && abandoned {
+				continue // the client gave up on a request that would have been admitted: nothing to compare
+			}
 			if exp.admit {
 				ok := (e.N == 200 && !isWS) || (isWS && e.N == 101)
 				if !ok {
@@ -551,6 +575,9 @@ func oracleC05(f *sessionFam, w *World, res *Result) []Violation {
 					}
 					l.add("refusal-after-accept-carries-text", fmt.Sprintf("code-%d", exp.code), fmt.Sprintf("%s: expected the accepted WebSocket to be closed with %q, got %s", desc, exp.msg, got))
 				}
+			} else if abandoned {
+				// the client had given up on the request: nobody reads the answer, the refusal is reported all the same
+				w.probe("refusal_of_abandoned_request")
 			} else {
 				var body struct {
 					Code    *int   `json:"code"`
